@@ -595,14 +595,14 @@ class ContainerValue:
             condition = condition & new_cond
 
         # shorthand specs:
-        value_short_keys = [i for i in spec if i.startswith("value.")]
+        value_short_keys = [i for i in spec if isinstance(i, str) and i.startswith("value.")]
         value_short_cond_specs = {i: spec.pop(i) for i in value_short_keys}
         for spec_k, spec_v in value_short_cond_specs.items():
             condition = condition & cnds.ConditionLike.from_spec({spec_k: spec_v})
 
         if cls == MapValue:
             # shorthand specs:
-            key_short_keys = [i for i in spec if i.startswith("key.")]
+            key_short_keys = [i for i in spec if isinstance(i, str) and i.startswith("key.")]
             key_short_cond_specs = {i: spec.pop(i) for i in key_short_keys}
             for spec_k, spec_v in key_short_cond_specs.items():
                 condition = condition & cnds.ConditionLike.from_spec({spec_k: spec_v})
@@ -619,7 +619,7 @@ class ContainerValue:
 
         elif cls == ListValue:
             # shorthand specs:
-            index_short_keys = [i for i in spec if i.startswith("index.")]
+            index_short_keys = [i for i in spec if isinstance(i, str) and i.startswith("index.")]
             index_short_cond_specs = {i: spec.pop(i) for i in index_short_keys}
             for spec_k, spec_v in index_short_cond_specs.items():
                 condition = condition & cnds.ConditionLike.from_spec({spec_k: spec_v})
@@ -636,7 +636,7 @@ class ContainerValue:
 
         elif cls == MapOrListValue:
             # shorthand specs:
-            index_short_keys = [i for i in spec if i.startswith("index.")]
+            index_short_keys = [i for i in spec if isinstance(i, str) and i.startswith("index.")]
             index_short_cond_specs = {i: spec.pop(i) for i in index_short_keys}
             for spec_k, spec_v in index_short_cond_specs.items():
                 list_condition = list_condition & cnds.ConditionLike.from_spec(
@@ -644,7 +644,7 @@ class ContainerValue:
                 )
 
             # shorthand specs:
-            key_short_keys = [i for i in spec if i.startswith("key.")]
+            key_short_keys = [i for i in spec if isinstance(i, str) and i.startswith("key.")]
             key_short_cond_specs = {i: spec.pop(i) for i in key_short_keys}
             for spec_k, spec_v in key_short_cond_specs.items():
                 map_condition = map_condition & cnds.ConditionLike.from_spec(
